@@ -251,6 +251,17 @@ def obj_equal(a, b):
         if not (isinstance(a, np.ndarray) and isinstance(b, np.ndarray)):
             return False
         return array_bytes_equal(a, b)
+    # subclasses of int / str (construct hands out EnumInteger / EnumIntegerString for enumerated
+    # fields) carry the same value as the plain object: "identical attributes" is not a claim
+    # about the Python class of an attribute value
+    if isinstance(a, int) and not isinstance(a, bool) and type(a) is not int:
+        a = int(a)
+    if isinstance(b, int) and not isinstance(b, bool) and type(b) is not int:
+        b = int(b)
+    if isinstance(a, str) and type(a) is not str:
+        a = str(a)
+    if isinstance(b, str) and type(b) is not str:
+        b = str(b)
     if type(a) is not type(b):
         return False
     if isinstance(a, float):
